@@ -17,7 +17,9 @@ byte-identical filter text but different view-local variables (or a local shadow
 from the verdict recomputed from each view's own threshold (systematic corpus family + random draws); a view whose
 (local or global) variable cannot be evaluated while a same-named global / primitive would make the filter true lists
 somebody; by(week|day|year) probes on payments in Jan 1-7 / Dec 25-31 of one year (2020-2026) and on EVERY calendar
-day of 2023 and 2024 (incl. 29 Feb; also 2020, 2028) != strftime re-computation."""
+day of 2023 and 2024 (incl. 29 Feb; also 2020, 2028) != strftime re-computation; cv probes on a DECIMAL stream (identical
+non-dyadic monthly totals over 3/6/12 months: true cv = 0) and `"x" in tags` probes on tags that lower() leaves alone
+but casefold() changes (sharp s, final sigma, long s, ligatures) != independent re-computation."""
 import ast
 import copy
 import json
@@ -51,6 +53,7 @@ def flit(x):
     return repr(float(x))
 
 
+NONASCII_TAGS = ['fußball', 'καφές', 'ſpaß', 'Fußball', 'ŉ', 'ǰazz', 'ﬁlm']     # str.lower() only touches their ASCII letters
 DAYS = [31, 28, 31, 30, 31, 30, 31, 31, 30, 31, 30, 31]
 
 
@@ -66,6 +69,8 @@ def gen_merchants(rnd):
         months = sorted(rnd.sample(range(0, 20), min(k, rnd.choice([1, 2, 3, 4, 6]))))
         excluded = rnd.random() < 0.18
         mtags = [t for t in ['food', 'Recurring', 'biz'] if rnd.random() < 0.3]
+        if rnd.random() < 0.12:
+            mtags.append(rnd.choice(NONASCII_TAGS))       # lower() leaves them alone, casefold() would not
         txns = []
         yearedge = rnd.random() < 0.15        # payments in Jan 1-7 and Dec 25-31 of ONE year (week / year boundaries)
         ye_year = rnd.choice([2020, 2021, 2023, 2024, 2025, 2026])
@@ -121,8 +126,18 @@ def spec_excluded(m):
     return any(t.lower() in SPECIAL for t in m_tags(m))
 
 
+def amt(t):
+    """exact value of the amount the implementation receives: ticks of 1/64, or (decimal stream) the double nearest to
+    cents/100"""
+    return Fraction(t['a'], 64) if 'a' in t else Fraction(*(t['c'] / 100).as_integer_ratio())
+
+
+def is_decimal(case):
+    return any('c' in t for m in case['merchants'] for t in m['txns'])
+
+
 def ref_total(m):
-    return Fraction(sum(t['a'] for t in m['txns']), 64)
+    return sum((amt(t) for t in m['txns']), Fraction(0))
 
 
 def ref_months(m):
@@ -146,7 +161,7 @@ def ref_cv2(m):
     """(sign, cv^2) of the population coefficient of variation of the monthly totals"""
     mt = {}
     for t in m['txns']:
-        mt[t['d'][:7]] = mt.get(t['d'][:7], 0) + Fraction(t['a'], 64)
+        mt[t['d'][:7]] = mt.get(t['d'][:7], 0) + amt(t)
     vals = list(mt.values())
     if len(vals) < 2:
         return 0, Fraction(0)
@@ -168,7 +183,7 @@ def ref_groups(m, field):
     g = {}
     for t in m['txns']:
         y, mo, d = map(int, t['d'].split('-'))
-        g.setdefault(date(y, mo, d).strftime(fmt), []).append(Fraction(t['a'], 64))
+        g.setdefault(date(y, mo, d).strftime(fmt), []).append(amt(t))
     return [g[k] for k in sorted(g)]
 
 
@@ -305,7 +320,7 @@ class ExprGen:
             consts.add(ref_months(m))
             consts.add(len(m['txns']))
             for t in m['txns'][:3]:
-                consts.add(t['a'] / 64)
+                consts.add(float(amt(t)))
             if m['txns']:
                 consts.add(float(tot / len(m['txns'])))
             c = ref_cv_float(m)
@@ -383,6 +398,8 @@ class ExprGen:
                 return f'{self.string()} {rnd.choice(["==", "==", "!="])} {self.string()}'
             if k < .8:
                 return f'"{casing(rnd, rnd.choice(["food", "recurring", "biz", "income", "nope"]))}" {rnd.choice(["in", "in", "not in"])} {self.nm("tags")}'
+            if k < .815:
+                return f'"{rnd.choice(NONASCII_TAGS + ["fussball", "καφέσ"])}" {rnd.choice(["in", "not in"])} tags'
             if k < .84:
                 return f'{self.string()} in "Food Bills Fun"'
             if k < .87:
@@ -670,7 +687,11 @@ def probe_truth(p, m):
         c, thr = ref_cv_float(m), p[2]
         if abs(c - thr) <= 1e-9 * max(1, abs(thr)):
             return None
-        return (c < thr) if p[1] == '<' else (c >= thr)
+        return {'<': c < thr, '>=': c >= thr, '<=': c <= thr, '>': c > thr}[p[1]]
+    if kind == 'tag':
+        # "x" in tags: tags compare by their lower-cased form (str.lower on both sides)
+        has = p[1].lower() in {t.lower() for t in m_tags(m)}
+        return has != bool(p[2])
     gr = ref_groups(m, p[1])
     if kind == 'groups':
         return len(gr) == p[2]
@@ -744,7 +765,8 @@ def oracle(case, results):
     got = {}
     for name, members, total, count in run['views']:
         got[name] = (members, total, count)
-    tot = {m['name']: sum(t['a'] for t in m['txns']) for m in ms}
+    tot = {m['name']: ref_total(m) * 64 for m in ms}
+    decimal = is_decimal(case)
     for i, v in enumerate(case['views']):
         members, total, count = got.get(v['name'], (None, None, None))
         shadowed = {n for n, _ in case['globals']} | {n for n, _ in v['vars']}
@@ -763,7 +785,14 @@ def oracle(case, results):
             else:
                 sig = None
             bad.append(('membership-iff-filter', sig, {'view': v['name'], 'listed': members, 'filter_true_of': expect}))
-        if total is None or total != sum(tot[x] for x in members) or count != len(members):
+        if decimal:
+            # decimal stream: amounts are not exact in binary, the total is compared up to rounding
+            tf = run.get('totals_f', {}).get(v['name'])
+            want_t = float(sum((tot[x] for x in members), Fraction(0)) / 64)
+            total_ok = tf is not None and abs(tf - want_t) <= 1e-6 * max(1.0, abs(want_t))
+        else:
+            total_ok = total is not None and total == sum(tot[x] for x in members)
+        if not total_ok or count != len(members):
             bad.append(('view-total-is-sum', None, {'view': v['name'], 'total_ticks': total, 'count': count, 'members': members}))
         # (a variable that shadows a primitive can make an ill-typed filter well-typed: then nothing is claimed)
         if v.get('must_error') and members and names.count(v['name']) == 1 and not (shadowed & prims):
@@ -1002,7 +1031,7 @@ def coq_case(case, main):
     ms = bm_order(case)
     mtxt = []
     for m in ms:
-        ps = '; '.join('P %d %d %d %s' % (*map(int, t['d'].split('-')), q_lit(Fraction(t['a'], 64))) for t in m['txns'])
+        ps = '; '.join('P %d %d %d %s' % (*map(int, t['d'].split('-')), q_lit(amt(t))) for t in m['txns'])
         mtxt.append(f"M {coq_str(m['name'])} {coq_str(m['cat'])} {coq_str(m['sub'])} [{'; '.join(coq_str(t) for t in m_tags(m))}] [{ps}]")
     views = '; '.join(f"W {coq_str(v['name'])} {coq_defs(v['vars'])} {coq_src(v['filter'])}" for v in case['views'])
     tab = []
@@ -1015,8 +1044,13 @@ def coq_case(case, main):
     if 'error' in run:
         exp = 'None'
     else:
-        exp = 'Some [' + '; '.join(f"({coq_str(n)}, ([{'; '.join(coq_str(x) for x in mem)}], {q_lit(Fraction(tot, 64))}))"
-                                   for n, mem, tot, _ in run['views']) + ']'
+        exact = {m['name']: ref_total(m) for m in ms}
+        # (decimal stream: the implementation's float total is checked by the direct oracle up to rounding; here
+        #  the member lists are what is compared, the expected total is the exact sum)
+        exp = 'Some [' + '; '.join(
+            f"({coq_str(n)}, ([{'; '.join(coq_str(x) for x in mem)}], "
+            f"{q_lit(Fraction(tot, 64) if tot is not None and not is_decimal(case) else sum((exact[x] for x in mem), Fraction(0)))}))"
+            for n, mem, tot, _ in run['views']) + ']'
     return (f"{{| t_cfg := {{| g_vars := {coq_defs(case['globals'])}; g_views := [{views}] |}};\n   t_ms := [{'; '.join(mtxt)}];\n"
             f"   t_tab := [{'; '.join(tab)}];\n   t_accept := true; t_run := {exp} |}}")
 
@@ -1025,8 +1059,11 @@ def model_check(cases, mains, name='C10', chunk=60, parallel=4):
     """-> (failing case indices | None, indices sent, error text, totals [modelled, near, root, round, mod, type])"""
     rows, idx, skipped = [], [], 0
     for i, (c, r) in enumerate(zip(cases, mains)):
+        if c.get('no_model'):
+            skipped += 1
+            continue
         if ('run' not in r and 'parse_error' not in r) or \
-                ('run' in r and any(t is None for _, _, t, _ in r['run'].get('views', []))):
+                ('run' in r and not is_decimal(c) and any(t is None for _, _, t, _ in r['run'].get('views', []))):
             skipped += 1
             continue
         try:
@@ -1362,6 +1399,37 @@ def corpus_cases():
                {'name': 'Solo', 'cat': 'Food', 'sub': '', 'txns': [{'d': f'{year}-02-29', 'a': 640, 'tags': []}, {'d': f'{year}-02-29', 'a': 64, 'tags': []},
                                                                    {'d': f'{year}-03-01', 'a': 64, 'tags': []}]}]
         out.append(mk(sweep_views, lms))
+    # decimal stream: identical NON-dyadic monthly totals (true cv = 0) over 3 / 6 / 12 months, one or two payments a
+    # month, under filters that order on cv — directly and through a variable — next to a lumpy merchant
+    prices = [4995, 1599, 999, 10, 1999, 123456, 33, 7, 2995, 4999, 150000, 1234, 8999, 12999, 5, 101, 9995, 1995, 2499, 799,
+              1, 3, 11, 4990, 4997, 6995, 1099, 2999, 18999, 47, 53, 5995, 7495, 30001, 99, 199, 1299, 4444, 6789, 110]
+    cvv = [{'name': 'Steady', 'vars': [], 'filter': 'cv < 0.3', 'probe': ['cv', '<', 0.3]},
+           {'name': 'Very', 'vars': [], 'filter': 'cv <= 0.05', 'probe': ['cv', '<=', 0.05]},
+           {'name': 'Lumpy', 'vars': [], 'filter': 'cv > 0.5', 'probe': ['cv', '>', 0.5]},
+           {'name': 'Var', 'vars': [['steady', 'cv < 0.3']], 'filter': 'steady and months >= 3'},
+           {'name': 'Neg', 'vars': [], 'filter': 'not cv >= 0.3', 'probe': ['cv', '<', 0.3]},
+           {'name': 'Sd', 'vars': [], 'filter': 'stddev(sum(by("month"))) / avg(sum(by("month"))) < 0.3', 'probe': ['cv', '<', 0.3]}]
+    lumpy = {'name': 'Lump', 'cat': 'Fun', 'sub': '', 'txns': [{'d': '2024-01-05', 'c': 1000, 'tags': []}, {'d': '2024-02-05', 'c': 99999, 'tags': []},
+                                                                 {'d': '2024-03-05', 'c': 1, 'tags': []}]}
+    for gi in range(0, len(prices), 8):
+        for nm, per in ((3, 1), (6, 1), (12, 1), (3, 2), (12, 3)):
+            dms = [lumpy]
+            for pc in prices[gi:gi + 8]:
+                dms.append({'name': f'R{pc}', 'cat': 'Bills', 'sub': 'Rent', 'txns': [
+                    {'d': f'2024-{mo:02d}-{3 + 7 * j:02d}', 'c': pc, 'tags': []} for mo in range(1, nm + 1) for j in range(per)]})
+            cs_ = mk(cvv, dms)
+            if nm * per > 6:
+                cs_['no_model'] = True      # direct oracle only: exact rationals of 36 non-dyadic payments are slow in vm_compute
+            out.append(cs_)
+    # tags that str.lower() leaves alone but str.casefold() changes (sharp s, final sigma, long s, ligatures)
+    tms = [{'name': f'T{i}', 'cat': 'Fun', 'sub': '', 'txns': [{'d': '2025-03-0%d' % (i + 1), 'a': 640, 'tags': [tg, 'food']}]}
+           for i, tg in enumerate(NONASCII_TAGS)] + [{'name': 'Plain', 'cat': 'Fun', 'sub': '', 'txns': [{'d': '2025-03-09', 'a': 64, 'tags': ['fussball']}]}]
+    tv = []
+    for i, lit_ in enumerate(NONASCII_TAGS + ['fussball', 'καφέσ', 'FUSSBALL', 'spass']):
+        tv.append({'name': f'In{i}', 'vars': [], 'filter': f'"{lit_}" in tags', 'probe': ['tag', lit_, 0]})
+        tv.append({'name': f'Out{i}', 'vars': [], 'filter': f'"{lit_}" not in tags', 'probe': ['tag', lit_, 1]})
+    out.append(mk(tv[:12], tms))
+    out.append(mk(tv[12:], tms))
     return out
 
 
